@@ -102,7 +102,7 @@ def main(argv):
     t_start = time.time()
     props = load_props()
     P = props.PROPS[pid]
-    timeout = P.get('timeout', {}).get(tier, 10 if tier == 'quick' else 120)
+    timeout = P.get('timeout', {}).get(tier, 30 if tier == 'quick' else 180)
     # GOVC_SCRATCH_OUT: experiments on a modified /repo (seeded changes, reverted fixes) must not overwrite the
     # evidence and replays of the registered checks
     outroot = os.environ.get('GOVC_SCRATCH_OUT') or VERIF
@@ -230,7 +230,7 @@ def main(argv):
         if mode == 'cover':
             futs.append(pool.submit(solve_text, smt, min(timeout, 5), CACHE, ob.name, ('z3-5.1',), None))
         else:
-            futs.append(pool.submit(solve_text, smt, timeout, CACHE, ob.name, order, min(timeout, 5)))
+            futs.append(pool.submit(solve_text, smt, timeout, CACHE, ob.name, order, min(timeout, 15)))
     covers_ok = 0
     for (key, ob, smt, mode), fu in zip(tasks, futs):
         r = fu.result()
